@@ -101,8 +101,10 @@ SPECIAL_ACLS = [x[0] for x in SPECIALS]
 
 OLD_Q = [S(["a"]), S(["interface X"], [S(["mtu 9000"]), S(["z"])]), S(["b 1"], [S(["c"]), S(["d 1"]), S(["z"]), S(["e"])])]
 NEW_Q = [S(["a", "a x"]), S(["interface X"], [S(["mtu 9000", "mtu 1500"])]), S(["b 1"], [S(["c"]), S(["d 1"]), S(["e"])])]
-OLD_T = OLD_Q + [S(["g 1"]), S(["z"], [S(["c"])])]
-NEW_T = NEW_Q + [S(["g 1", "g 2"])]
+# thorough: all 16 ACL texts x both vendors; the trees grow by the row of the %global rule on the old side only (a product
+# with a larger new side as well is 10.6M cases, about two hours)
+OLD_T = OLD_Q + [S(["g 1"])]
+NEW_T = NEW_Q
 OLD = OLD_Q if rt.TIER == "quick" else OLD_T
 NEW = NEW_Q if rt.TIER == "quick" else NEW_T
 VENDORS = ["huawei", "cisco"]
